@@ -1,7 +1,7 @@
 (* C02: parse_render theorem for the ctime() form. *)
 From Coq Require Import ZArith List Bool Lia ZifyBool.
 From V Require Import base.Cal gen.ParseTables parse.Lex parse.Prim parse.Ymd parse.Parse parse.Build
-                      parse.ParseSpec parse.LexSeg parse.TokFacts parse.YearThm parse.RenderTac parse.RenderTac3 parse.RenderIso parse.WordFacts parse.LexSeg2 parse.RenderCommaDefs.
+                      parse.ParseSpec parse.LexSeg parse.TokFacts parse.YearThm parse.RenderTac parse.RenderTac3 parse.RenderIso parse.WordFacts parse.LexSeg2 parse.RenderCommaDefs parse.RenderTac4.
 Import ListNotations.
 Open Scope Z_scope.
 Ltac Zify.zify_post_hook ::= Z.to_euclidean_division_equations.
@@ -70,19 +70,18 @@ Proof. destruct v; [lia | reflexivity | reflexivity]. Qed.
 Ltac wdrw Hw :=
   rewrite ?(wd3_float _ Hw), ?(wd3_weekday _ Hw), ?(wd3_hms _ Hw), ?(wd3_ampm _ Hw), ?(wd3_jump _ Hw).
 
-(* ctime(): "Thu Sep 25 10:36:28 2003" / "Fri Sep  5 10:36:28 2003" (day space-padded); year >= 100 *)
-Theorem parse_render_ctime_lemma : forall d o df cy loc n0 n1 yf ig,
-  valid_dt d = true -> valid_dt df = true -> 100 <= d_y d ->
+
+Lemma ctime_small_gt : forall d o df cy loc n0 n1 yf ig,
+  valid_dt d = true -> valid_dt df = true -> 100 < d_y d -> d_d d < 10 ->
   parse (opts_df0 yf ig df cy loc n0 n1) (render TCtime d o)
   = OutOk (expected_dt TCtime d df) ZNaive 0 false [].
 Proof.
-  intros d o df cy loc n0 n1 yf ig Hd Hdf Hy100.
+  intros d o df cy loc n0 n1 yf ig Hd Hdf Hyc Hd10.
   destruct (valid_dt_ranges d Hd) as (Ry & Rmo & Rd & Rh & Rmi & Rs & Rus).
   assert (Hm12 : 1 <= d_mo d <= 12 /\ 1 <= d_d d <= 31).
   { unfold valid_dt, valid_ymd in Hd. pose proof (dim_pos (d_y d) (d_mo d)). lia. }
   destruct Hm12 as [Hm12 Hd31].
   assert (Hw : 0 <= weekday (d_y d) (d_mo d) (d_d d) <= 6) by (unfold weekday; apply weekday_of_ord_range).
-  assert (Hyc : d_y d = 100 \/ 100 < d_y d) by lia.
   unfold parse, opts_df0;
   cbn [o_fuzzy o_fwt o_yearfirst o_info_yearfirst o_dayfirst o_info_dayfirst o_cur_year oflag o_default
        o_ignoretz o_tzinfos o_local o_nm0 o_nm1].
@@ -93,14 +92,121 @@ Proof.
     rewrite ?digits_n_all_digit, ?digits_n_length, ?nonempty_digits; vm_compute; reflexivity. }
   rewrite timelex_segments by exact Hwf. clear Hwf.
   unfold ctime_segs. set (wdn := weekday (d_y d) (d_mo d) (d_d d)) in *.
-  destruct (d_d d <? 10) eqn:Ed10; cbn [app map seg_tok];
-  [ assert (Rd' : 0 <= d_d d < 10 ^ Z.of_nat 1) by (change (10 ^ Z.of_nat 1) with 10; lia) | ];
-  destruct Hyc as [Hyc | Hyc];
-  repeat (progress (unfold dec_gt, dec_ge, dec_lt, dec_le, frac_nonzero; cbn [fst snd existsb]; sym2;
-                    wordrw Hm12; wdrw Hw; rewrite ?tok_is1_digit1 by lia;
-                    rewrite ?convertyear_ge100 by lia));
-  rewrite ?(day_nonzero (d_d d)) by (clear - Hd31; lia);
-  repeat (progress sym2);
-  try match goal with |- (if ?b then _ else _) = _ => destruct b end;
-  reflexivity.
+  replace (d_d d <? 10) with true by lia. cbn [app map seg_tok length].
+  assert (Rd' : 0 <= d_d d < 10 ^ Z.of_nat 1) by (change (10 ^ Z.of_nat 1) with 10; lia).
+  lrun ltac:(unfold dec_gt, dec_ge, dec_lt, dec_le, frac_nonzero; cbn [fst snd existsb];
+             wordrw Hm12; wdrw Hw; rewrite ?tok_is1_digit1 by lia; rewrite ?convertyear_ge100 by lia).
+  try (match goal with |- context [if ?c then add_weekday _ _ else _] =>
+         replace c with false by (clear - Hd31; destruct (d_d d); [exfalso; lia | reflexivity | reflexivity]) end).
+  repeat (progress sym2).
+  try match goal with |- (if ?b then _ else _) = _ => destruct b end.
+  all: reflexivity.
+Qed.
+
+Lemma ctime_small_eq : forall d o df cy loc n0 n1 yf ig,
+  valid_dt d = true -> valid_dt df = true -> d_y d = 100 -> d_d d < 10 ->
+  parse (opts_df0 yf ig df cy loc n0 n1) (render TCtime d o)
+  = OutOk (expected_dt TCtime d df) ZNaive 0 false [].
+Proof.
+  intros d o df cy loc n0 n1 yf ig Hd Hdf Hyc Hd10.
+  destruct (valid_dt_ranges d Hd) as (Ry & Rmo & Rd & Rh & Rmi & Rs & Rus).
+  assert (Hm12 : 1 <= d_mo d <= 12 /\ 1 <= d_d d <= 31).
+  { unfold valid_dt, valid_ymd in Hd. pose proof (dim_pos (d_y d) (d_mo d)). lia. }
+  destruct Hm12 as [Hm12 Hd31].
+  assert (Hw : 0 <= weekday (d_y d) (d_mo d) (d_d d) <= 6) by (unfold weekday; apply weekday_of_ord_range).
+  unfold parse, opts_df0;
+  cbn [o_fuzzy o_fwt o_yearfirst o_info_yearfirst o_dayfirst o_info_dayfirst o_cur_year oflag o_default
+       o_ignoretz o_tzinfos o_local o_nm0 o_nm1].
+  unfold parse_res. rewrite ctime_render by lia.
+  assert (Hwf : wf_segs (ctime_segs d) = true).
+  { unfold ctime_segs. destruct (d_d d <? 10); cbn [app wf_segs hd_error ok_next];
+    rewrite ?(mon3_wf _ Hm12), ?(wd3_wf _ Hw); cbn [wf_seg];
+    rewrite ?digits_n_all_digit, ?digits_n_length, ?nonempty_digits; vm_compute; reflexivity. }
+  rewrite timelex_segments by exact Hwf. clear Hwf.
+  unfold ctime_segs. set (wdn := weekday (d_y d) (d_mo d) (d_d d)) in *.
+  replace (d_d d <? 10) with true by lia. cbn [app map seg_tok length].
+  assert (Rd' : 0 <= d_d d < 10 ^ Z.of_nat 1) by (change (10 ^ Z.of_nat 1) with 10; lia).
+  lrun ltac:(unfold dec_gt, dec_ge, dec_lt, dec_le, frac_nonzero; cbn [fst snd existsb];
+             wordrw Hm12; wdrw Hw; rewrite ?tok_is1_digit1 by lia; rewrite ?convertyear_ge100 by lia).
+  try (match goal with |- context [if ?c then add_weekday _ _ else _] =>
+         replace c with false by (clear - Hd31; destruct (d_d d); [exfalso; lia | reflexivity | reflexivity]) end).
+  repeat (progress sym2).
+  try match goal with |- (if ?b then _ else _) = _ => destruct b end.
+  all: reflexivity.
+Qed.
+
+Lemma ctime_big_gt : forall d o df cy loc n0 n1 yf ig,
+  valid_dt d = true -> valid_dt df = true -> 100 < d_y d -> 10 <= d_d d ->
+  parse (opts_df0 yf ig df cy loc n0 n1) (render TCtime d o)
+  = OutOk (expected_dt TCtime d df) ZNaive 0 false [].
+Proof.
+  intros d o df cy loc n0 n1 yf ig Hd Hdf Hyc Hd10.
+  destruct (valid_dt_ranges d Hd) as (Ry & Rmo & Rd & Rh & Rmi & Rs & Rus).
+  assert (Hm12 : 1 <= d_mo d <= 12 /\ 1 <= d_d d <= 31).
+  { unfold valid_dt, valid_ymd in Hd. pose proof (dim_pos (d_y d) (d_mo d)). lia. }
+  destruct Hm12 as [Hm12 Hd31].
+  assert (Hw : 0 <= weekday (d_y d) (d_mo d) (d_d d) <= 6) by (unfold weekday; apply weekday_of_ord_range).
+  unfold parse, opts_df0;
+  cbn [o_fuzzy o_fwt o_yearfirst o_info_yearfirst o_dayfirst o_info_dayfirst o_cur_year oflag o_default
+       o_ignoretz o_tzinfos o_local o_nm0 o_nm1].
+  unfold parse_res. rewrite ctime_render by lia.
+  assert (Hwf : wf_segs (ctime_segs d) = true).
+  { unfold ctime_segs. destruct (d_d d <? 10); cbn [app wf_segs hd_error ok_next];
+    rewrite ?(mon3_wf _ Hm12), ?(wd3_wf _ Hw); cbn [wf_seg];
+    rewrite ?digits_n_all_digit, ?digits_n_length, ?nonempty_digits; vm_compute; reflexivity. }
+  rewrite timelex_segments by exact Hwf. clear Hwf.
+  unfold ctime_segs. set (wdn := weekday (d_y d) (d_mo d) (d_d d)) in *.
+  replace (d_d d <? 10) with false by lia. cbn [app map seg_tok length].
+  lrun ltac:(unfold dec_gt, dec_ge, dec_lt, dec_le, frac_nonzero; cbn [fst snd existsb];
+             wordrw Hm12; wdrw Hw; rewrite ?tok_is1_digit1 by lia; rewrite ?convertyear_ge100 by lia).
+  try (match goal with |- context [if ?c then add_weekday _ _ else _] =>
+         replace c with false by (clear - Hd31; destruct (d_d d); [exfalso; lia | reflexivity | reflexivity]) end).
+  repeat (progress sym2).
+  try match goal with |- (if ?b then _ else _) = _ => destruct b end.
+  all: reflexivity.
+Qed.
+
+Lemma ctime_big_eq : forall d o df cy loc n0 n1 yf ig,
+  valid_dt d = true -> valid_dt df = true -> d_y d = 100 -> 10 <= d_d d ->
+  parse (opts_df0 yf ig df cy loc n0 n1) (render TCtime d o)
+  = OutOk (expected_dt TCtime d df) ZNaive 0 false [].
+Proof.
+  intros d o df cy loc n0 n1 yf ig Hd Hdf Hyc Hd10.
+  destruct (valid_dt_ranges d Hd) as (Ry & Rmo & Rd & Rh & Rmi & Rs & Rus).
+  assert (Hm12 : 1 <= d_mo d <= 12 /\ 1 <= d_d d <= 31).
+  { unfold valid_dt, valid_ymd in Hd. pose proof (dim_pos (d_y d) (d_mo d)). lia. }
+  destruct Hm12 as [Hm12 Hd31].
+  assert (Hw : 0 <= weekday (d_y d) (d_mo d) (d_d d) <= 6) by (unfold weekday; apply weekday_of_ord_range).
+  unfold parse, opts_df0;
+  cbn [o_fuzzy o_fwt o_yearfirst o_info_yearfirst o_dayfirst o_info_dayfirst o_cur_year oflag o_default
+       o_ignoretz o_tzinfos o_local o_nm0 o_nm1].
+  unfold parse_res. rewrite ctime_render by lia.
+  assert (Hwf : wf_segs (ctime_segs d) = true).
+  { unfold ctime_segs. destruct (d_d d <? 10); cbn [app wf_segs hd_error ok_next];
+    rewrite ?(mon3_wf _ Hm12), ?(wd3_wf _ Hw); cbn [wf_seg];
+    rewrite ?digits_n_all_digit, ?digits_n_length, ?nonempty_digits; vm_compute; reflexivity. }
+  rewrite timelex_segments by exact Hwf. clear Hwf.
+  unfold ctime_segs. set (wdn := weekday (d_y d) (d_mo d) (d_d d)) in *.
+  replace (d_d d <? 10) with false by lia. cbn [app map seg_tok length].
+  lrun ltac:(unfold dec_gt, dec_ge, dec_lt, dec_le, frac_nonzero; cbn [fst snd existsb];
+             wordrw Hm12; wdrw Hw; rewrite ?tok_is1_digit1 by lia; rewrite ?convertyear_ge100 by lia).
+  try (match goal with |- context [if ?c then add_weekday _ _ else _] =>
+         replace c with false by (clear - Hd31; destruct (d_d d); [exfalso; lia | reflexivity | reflexivity]) end).
+  repeat (progress sym2).
+  try match goal with |- (if ?b then _ else _) = _ => destruct b end.
+  all: reflexivity.
+Qed.
+
+(* ctime(): "Thu Sep 25 10:36:28 2003" / "Fri Sep  5 10:36:28 2003" (day space-padded); year >= 100 *)
+Theorem parse_render_ctime_lemma : forall d o df cy loc n0 n1 yf ig,
+  valid_dt d = true -> valid_dt df = true -> 100 <= d_y d ->
+  parse (opts_df0 yf ig df cy loc n0 n1) (render TCtime d o)
+  = OutOk (expected_dt TCtime d df) ZNaive 0 false [].
+Proof.
+  intros d o df cy loc n0 n1 yf ig Hd Hdf Hy.
+  destruct (Z_lt_le_dec (d_d d) 10); destruct (Z.eq_dec (d_y d) 100).
+  - apply ctime_small_eq; assumption.
+  - apply ctime_small_gt; try assumption; lia.
+  - apply ctime_big_eq; assumption.
+  - apply ctime_big_gt; try assumption; lia.
 Qed.
